@@ -68,6 +68,16 @@ CLAIMS["C18"] = dict(
     tech="CBMC harness proofs and code contracts on verbatim slices; oracle = group table from 2x2 matrices + record semantics; case split over transform/axis/type",
     ref="5/C18")
 
+CLAIMS["C09"] = dict(
+    cat="proof",
+    text="Kernel clauses of C09 under contract: moveCentreX/Y, moveMinX/Y keep width/height and the other axis; overlapX/Y > 0 iff open extents intersect; every generated "
+         "separation (the six sep expressions of generateX/YConstraints) separates its pair under any placement satisfying it; removeoverlaps restores the x/y border statics "
+         "(projection fragment, two calls under different borders). 'No two rectangles overlap', acyclicity and fixed-rectangle movement are undecided residue.",
+    note=BASE_TB + "Scaled-integer mode (machine arithmetic treated as mathematical) for the size/separation jobs; projection fragment with a syntactic premise checked every run; "
+         "exception path of removeoverlaps not covered.",
+    tech="CBMC harness proofs on verbatim slices of inline members and expression/projection fragments; scaled-integer arithmetic mode; native multi-call replay",
+    ref="5/C09")
+
 NA = {
     "C02": "Optimality of solve() is a KKT/convergence statement about an iterative active-set method over heap-allocated block trees in IEEE arithmetic; per-function facts need FP multiply/divide reasoning no installed back end finishes (DESIGN 3) and would not imply agreement with a QP oracle.",
     "C03": "'No route segment crosses an obstacle' is emergent from visibility-graph construction (std::list/std::set sweeps), A*, nudging and hyperedge improvement; only the leaf predicates are reachable and they are claimed under C16.",
@@ -82,7 +92,7 @@ NA = {
     "C19": "Decompositions over std::map-of-shared_ptr graphs and a sweep-line planariser; no function within the front end's reach carries the partition property.",
 }
 
-PENDING = {k: 'claim designed in DESIGN.md section 5 but its contract jobs are not built at this commit; not claimed yet' for k in ['C09','C10','C17']}  # id -> reason (claims planned in DESIGN.md whose jobs are not built yet)
+PENDING = {k: 'claim designed in DESIGN.md section 5 but its contract jobs are not built at this commit; not claimed yet' for k in ['C10','C17']}  # id -> reason (claims planned in DESIGN.md whose jobs are not built yet)
 
 
 def main():
